@@ -4,7 +4,7 @@ from props.render_common import run_render
 
 
 def run(rep, ctx):
-    run_render(rep, ctx, 'c03', [('counts-and-detection', rc.c03_failures)], n_quick=600, n_thorough=10000, identity=True, big=True)
+    run_render(rep, ctx, 'c03', [('counts-and-detection', rc.c03_failures)], n_quick=600, n_thorough=10000, identity=True, big=True, small_caps=True)
 
 
 def replay(rep, data):
